@@ -339,6 +339,13 @@ class Executor:
                 return hr
         if isinstance(a, VGlobal) and isinstance(b, VGlobal) and op == "|":
             return [Res("val", VGlobal(f"{a.text} | {b.text}"), s)]
+        if op in ("|", "&") and all(isinstance(v, VRef) and v.kinds and v.kinds[0] == "set" for v in (a, b)):
+            # set union / intersection: a NEW set object
+            x = z3.Int("x!setop")
+            d1, d2 = s.dict_dom(a.z), s.dict_dom(b.z)
+            r = s.new_object("set")
+            s.dict_store(r, z3.Lambda([x], (z3.Or if op == "|" else z3.And)(z3.Select(d1, x), z3.Select(d2, x))), z3.K(z3.IntSort(), z3.IntVal(0)))
+            return [Res("val", VRef(r, "set", a.kinds), s)]
         v = arith.binop(op, a, b, lambda k, c: sides.append((k, c)))
         out = []
         cur = s
@@ -507,6 +514,10 @@ class Executor:
             r = h(self, st, a, b)
             if r is not None:
                 return [Res("val", arith.negate(r) if op == "!=" else r, st)]
+        if op in ("==", "!=") and all(isinstance(v, VRef) and v.kinds and v.kinds[0] == "set" for v in (a, b)):
+            # sets compare by CONTENT, not identity
+            r = lift_bool(z3.And(a.z != 0, b.z != 0, st.dict_dom(a.z) == st.dict_dom(b.z)))
+            return [Res("val", arith.negate(r) if op == "!=" else r, st)]
         return [Res("val", arith.compare(op, a, b), st)]
 
     def contains(self, container, item, st):
